@@ -1,8 +1,9 @@
-//! C20 — the recency index shared by the L1 caches.  Kani harnesses over the real `LruIndex<u8>`:
-//! every history of STEPS operations (insert_new / touch / remove / pop_lru, symbolic kind per step, keys from a
-//! concrete per-row schedule) is compared, after every step, with a reference model (an array holding the keys
-//! oldest -> newest): same length, same order when walked from `head` along `next` and from `tail` along `prev`,
-//! same return values.  Appended (under cfg(kani)) as a child module of `lru_index.rs` in the overlay.
+//! C20 — the recency index shared by the L1 caches.  Kani harnesses over the real `LruIndex<u8>` (its HashMap replaced
+//! by the finite-map model crate::verif_map under cfg(kani)): every history of STEPS operations (insert_new / touch /
+//! remove / pop_lru, symbolic kind and symbolic key per step, keys from a universe of 4) is compared, after every step,
+//! with a reference model (an array holding the keys oldest -> newest): same length, same order when walked from
+//! `head` along `next` and from `tail` along `prev`, same return values.  Appended (under cfg(kani)) as a child module
+//! of `lru_index.rs` in the overlay.
 #![allow(non_snake_case)]
 use super::*;
 
@@ -40,7 +41,6 @@ impl Model {
 
 fn check_same(l: &LruIndex<u8>, m: &Model) {
     assert!(l.len() == m.len, "C20: LruIndex::len() equals the number of tracked keys");
-    // forward walk: head, next, next ...
     let mut cur = l.head;
     let mut i = 0;
     while i < m.len {
@@ -54,7 +54,6 @@ fn check_same(l: &LruIndex<u8>, m: &Model) {
         i += 1;
     }
     assert!(cur.is_none(), "C20: the list ends after len() keys");
-    // backward walk
     let mut cur = l.tail;
     let mut i = m.len;
     while i > 0 {
@@ -71,15 +70,12 @@ fn check_same(l: &LruIndex<u8>, m: &Model) {
 fn step(l: &mut LruIndex<u8>, m: &mut Model, kind: u8, key: u8) {
     match kind {
         0 => {
-            // insert_new: new key appended as most recent; an existing key is touched
             let p = m.pos(key);
             if p < MAXN {
                 m.remove_at(p);
             }
-            if m.len < MAXN {
-                m.push(key);
-                l.insert_new(key);
-            }
+            m.push(key);
+            l.insert_new(key);
         }
         1 => {
             let p = m.pos(key);
@@ -94,6 +90,7 @@ fn step(l: &mut LruIndex<u8>, m: &mut Model, kind: u8, key: u8) {
             let p = m.pos(key);
             let r = l.remove(key);
             assert!(r == (p < MAXN), "C20: remove reports whether the key was tracked");
+            assert!(l.contains(key) == false, "C20: a removed key is no longer tracked");
             if p < MAXN {
                 m.remove_at(p);
             }
@@ -110,18 +107,19 @@ fn step(l: &mut LruIndex<u8>, m: &mut Model, kind: u8, key: u8) {
     }
 }
 
-fn history(keys: &[u8], witness: bool) {
+fn history(steps: usize, witness: bool) {
     let mut l: LruIndex<u8> = LruIndex::with_capacity(4);
     let mut m = Model { keys: [0; MAXN], len: 0 };
     let mut i = 0;
     let mut pops = 0u32;
-    while i < keys.len() {
+    while i < steps {
         let kind: u8 = kani::any();
-        kani::assume(kind < 4);
+        let key: u8 = kani::any();
+        kani::assume(kind < 4 && key < MAXN as u8);
         if kind == 3 {
             pops += 1;
         }
-        step(&mut l, &mut m, kind, keys[i]);
+        step(&mut l, &mut m, kind, key);
         if !witness {
             check_same(&l, &m);
         }
@@ -130,27 +128,24 @@ fn history(keys: &[u8], witness: bool) {
     if witness {
         kani::cover!(m.len == 2 && pops >= 1, "a history with an eviction that leaves two keys");
     }
-    std::mem::forget(l);
 }
 
-macro_rules! lru_row {
-    ($name:ident, $wname:ident, $keys:expr) => {
+macro_rules! lru_hist {
+    ($name:ident, $wname:ident, $steps:expr) => {
         #[kani::proof]
         #[kani::unwind(8)]
-        #[kani::stub(std::hash::RandomState::new, crate::verif_support::random_state_new_stub)]
         fn $name() {
-            history(&$keys, false);
+            history($steps, false);
         }
         #[kani::proof]
         #[kani::unwind(8)]
-        #[kani::stub(std::hash::RandomState::new, crate::verif_support::random_state_new_stub)]
         fn $wname() {
-            history(&$keys, true);
+            history($steps, true);
         }
     };
 }
 
-lru_row!(c20_lru_hist_abcad, c20_lru_hist_abcad__witness, [1u8, 2, 3, 1, 4]);
-lru_row!(c20_lru_hist_abab, c20_lru_hist_abab__witness, [1u8, 2, 1, 2]);
-lru_row!(c20_lru_hist_aabba, c20_lru_hist_aabba__witness, [1u8, 1, 2, 2, 1]);
-lru_row!(c20_lru_hist_abcabc, c20_lru_hist_abcabc__witness, [1u8, 2, 3, 1, 2, 3]);
+lru_hist!(c20_lru_histories_4, c20_lru_histories_4__witness, 4);
+lru_hist!(c20_lru_histories_5, c20_lru_histories_5__witness, 5);
+lru_hist!(c20_lru_histories_6, c20_lru_histories_6__witness, 6);
+lru_hist!(c20_lru_histories_7, c20_lru_histories_7__witness, 7);
